@@ -199,12 +199,16 @@ func (e *Enc) binop(f *frame, st *State, in *ssa.BinOp) Val {
 		case KStr:
 			switch in.Op {
 			case token.LSS:
+				e.strOrderFacts(x.T, y.T)
 				return Val{Sh: sh, T: fmt.Sprintf("(strlt %s %s)", x.T, y.T)}
 			case token.GTR:
+				e.strOrderFacts(x.T, y.T)
 				return Val{Sh: sh, T: fmt.Sprintf("(strlt %s %s)", y.T, x.T)}
 			case token.LEQ:
+				e.strOrderFacts(x.T, y.T)
 				return Val{Sh: sh, T: fmt.Sprintf("(not (strlt %s %s))", y.T, x.T)}
 			default:
+				e.strOrderFacts(x.T, y.T)
 				return Val{Sh: sh, T: fmt.Sprintf("(not (strlt %s %s))", x.T, y.T)}
 			}
 		}
@@ -399,6 +403,9 @@ func (e *Enc) block(f *frame, b *ssa.BasicBlock, st *State) {
 				}
 			}
 			e.frameCheck(f, st, loc, in)
+			if f.top && e.fc != nil && len(e.fc.StoreInvs) > 0 && e.noObl == 0 {
+				e.storeInvs(f, st, loc, v, in)
+			}
 			e.storeVal(st, loc, v)
 		case *ssa.Extract:
 			t := e.value(f, in.Tuple)
@@ -646,7 +653,16 @@ func (e *Enc) indexAddr(f *frame, st *State, in *ssa.IndexAddr) {
 	idx := e.value(f, in.Index)
 	if e.instDepth == 0 && e.inQuant == 0 {
 		if st, ok := in.X.Type().Underlying().(*types.Slice); ok {
-			e.instantiateFactsFor([]string{idx.T}, elemPath(st.Elem()))
+			terms := []string{idx.T}
+			// an index into x[lo:hi] is index lo+i of x: facts stated about x are instantiated there too
+			if sl, ok := in.X.(*ssa.Slice); ok && sl.Low != nil {
+				if lo, ok := f.vals[sl.Low]; ok {
+					terms = append(terms, e.define("ixlo", "Int", fmt.Sprintf("(+ %s %s)", lo.T, idx.T)))
+				} else if c, ok := sl.Low.(*ssa.Const); ok {
+					terms = append(terms, e.define("ixlo", "Int", fmt.Sprintf("(+ %s %s)", e.constVal(c).T, idx.T)))
+				}
+			}
+			e.instantiateFactsFor(terms, elemPath(st.Elem()))
 		}
 	}
 	switch xt := in.X.Type().Underlying().(type) {
@@ -885,4 +901,43 @@ func (e *Enc) backEdges(f *frame, b *ssa.BasicBlock, st *State) {
 			}
 		}
 	}
+}
+
+// storeInvs: obligations attached to every store to a named field inside the
+// function under contract (self = the object written, val = the value stored,
+// evaluated in the state before the store).
+func (e *Enc) storeInvs(f *frame, st *State, loc *Loc, v Val, in *ssa.Store) {
+	for _, si := range e.fc.StoreInvs {
+		if loc.Path != si.Path || loc.Idx != "" {
+			continue
+		}
+		fa, ok := in.Addr.(*ssa.FieldAddr)
+		if !ok {
+			continue
+		}
+		env := e.baseEnv(f, st)
+		env.blk = in.Block()
+		env.vars["self"] = Val{Sh: shapeOf(fa.X.Type()), T: loc.Base}
+		env.vars["val"] = v
+		goal := e.safeEvalGoal(si.C, env)
+		lb := si.C.Label
+		if lb == "" {
+			lb = si.Path
+		}
+		e.oblige("storeinv", lb+"@"+e.site(in), in.Pos(), goal, si.C.Props, si.C.Text)
+	}
+}
+
+// strOrderFacts: ground instances of "the byte-wise string order is a strict
+// total order" for one compared pair (trichotomy).
+func (e *Enc) strOrderFacts(a, b string) {
+	if e.inQuant > 0 {
+		return
+	}
+	key := "strord:" + a + "|" + b
+	if e.lemmaDone[key] {
+		return
+	}
+	e.lemmaDone[key] = true
+	e.assert(fmt.Sprintf("(and (=> (= %s %s) (and (not (strlt %s %s)) (not (strlt %s %s)))) (=> (not (= %s %s)) (xor (strlt %s %s) (strlt %s %s))))", a, b, a, b, b, a, a, b, a, b, b, a))
 }
